@@ -74,6 +74,21 @@ def run(tier, rep):
                     names.append(nm)
                 else:
                     skipped += 1
+    # the E_step field of the p.d.f. header is informative only: the shipped mock table and the example in the documentation
+    # carry a rounded value that differs from (E_max-E_min)/(n-1), and the loader recomputes it; same tables, other field
+    import re as _re
+    for nm0 in [n_ for n_ in names if n_.startswith(('n4_flat', 'n5_ridge', 'n4_corner', 'n5_rising'))]:
+        nm = nm0 + '_step'
+        src, dst = os.path.join(root, nm0), os.path.join(root, nm)
+        shutil.copytree(src, dst)
+        pf = os.path.join(dst, 'data/dbd_gA/v1.0/Test/g0/tab_pdf.data')
+        txt = open(pf).read()
+        m = _re.search(r'^(Probability\s+\S+\s+\S+\s+)(\S+)(\s+\d+)', txt, _re.M)
+        if not m:
+            raise SystemExit('HARNESS-ERROR: p.d.f. header not found in ' + pf)
+        txt = txt[:m.start(2)] + ('%.4f' % (float(m.group(2)) * 0.875)) + txt[m.end(2):]
+        open(pf, 'w').write(txt)
+        names.append(nm)
     # grids that extend past the kinematic limit (E_min + E_max > Esum_max) with a null p.d.f. beyond it: the loader
     # supports such files explicitly ("Should be zero!")
     for n in (4, 5, 6):
